@@ -14,6 +14,7 @@ import (
 	"math/rand"
 	"os"
 	"reflect"
+	"runtime"
 	"sync"
 	"sync/atomic"
 	"time"
@@ -387,6 +388,39 @@ func c18Run(r *Run, h int) {
 			})
 		})
 	}
+	// a reader whose predicate looks at the rows the cache holds (WhereCache): the predicate must never be
+	// shown a row that mixes two versions, and neither must the result
+	spawn(rng.Int63(), func(lr *rand.Rand) {
+		pred := reflect.MakeFunc(reflect.FuncOf([]reflect.Type{reflect.PtrTo(pairType)}, []reflect.Type{reflect.TypeOf(true)}, false),
+			func(args []reflect.Value) []reflect.Value {
+				// read twice with a pause in between: an update applied in place would show through
+				m := args[0].Interface()
+				_, r1 := adb.RowOf("Pair", m)
+				runtime.Gosched()
+				_, r2 := adb.RowOf("Pair", m)
+				if !pairConsistent(r1) || !pairConsistent(r2) || r1.Canon() != r2.Canon() {
+					torn.Store(r1.Canon() + " / " + r2.Canon())
+				}
+				return []reflect.Value{reflect.ValueOf(true)}
+			})
+		stat.call("WhereCache.List", limit, func(ctx context.Context) (err error) {
+			defer func() {
+				if p := recover(); p != nil {
+					err = fmt.Errorf("panic: %v", p)
+				}
+			}()
+			res := reflect.New(reflect.SliceOf(reflect.PtrTo(pairType)))
+			err = a.WhereCache(pred.Interface()).List(ctx, res.Interface())
+			if err == nil {
+				var ms []model.Model
+				for i := 0; i < res.Elem().Len(); i++ {
+					ms = append(ms, res.Elem().Index(i).Interface())
+				}
+				checkModels(ms)
+			}
+			return err
+		})
+	})
 	spawn(rng.Int63(), func(lr *rand.Rand) {
 		stat.call("Get", limit, func(ctx context.Context) error {
 			m := adb.NewModel("Pair", mkUUID(1+lr.Intn(nRows)), nil)
